@@ -35,7 +35,7 @@ static void apply (unsigned char *dst, const unsigned char *src, int fill, _Bool
     }
   __CPROVER_havoc_object (base);
   for (int i = 0; i < VERIF_NPTS; i++)
-    if (in[i]) base[verif_pts[i]] = nv[i];
+    if (in[i]) __CPROVER_assume (base[verif_pts[i]] == nv[i]);      /* stub postcondition (satisfiable: equal points get equal values) */
   verif_memops++;
 }
 void *verif_stub_memmove (void *dst, const void *src, size_t n)
